@@ -78,21 +78,25 @@ Record rst := mkR {
   r_gets : list id;           (* one entry per object GET issued *)
   r_tr : list item;           (* reversed *)
   r_abort : bool;             (* caller's context cancelled / watcher failed *)
+  r_known : list id;          (* CRD ids whose custom kind the RESTMapper knows (as of its last reset) *)
 }.
 
 Definition set_cl (s : rst) (c : cluster) : rst :=
-  mkR c (r_tbl s) (r_cache s) (r_aband s) (r_nlist s) (r_nget s) (r_nwrite s) (r_gets s) (r_tr s) (r_abort s).
+  mkR c (r_tbl s) (r_cache s) (r_aband s) (r_nlist s) (r_nget s) (r_nwrite s) (r_gets s) (r_tr s) (r_abort s) (r_known s).
 Definition set_tbl (s : rst) (t : table id) : rst :=
-  mkR (r_cl s) t (r_cache s) (r_aband s) (r_nlist s) (r_nget s) (r_nwrite s) (r_gets s) (r_tr s) (r_abort s).
+  mkR (r_cl s) t (r_cache s) (r_aband s) (r_nlist s) (r_nget s) (r_nwrite s) (r_gets s) (r_tr s) (r_abort s) (r_known s).
 Definition set_cache (s : rst) (c : list sobs) : rst :=
-  mkR (r_cl s) (r_tbl s) c (r_aband s) (r_nlist s) (r_nget s) (r_nwrite s) (r_gets s) (r_tr s) (r_abort s).
+  mkR (r_cl s) (r_tbl s) c (r_aband s) (r_nlist s) (r_nget s) (r_nwrite s) (r_gets s) (r_tr s) (r_abort s) (r_known s).
 Definition add_aband (s : rst) (i : id) : rst :=
-  mkR (r_cl s) (r_tbl s) (r_cache s) (i :: r_aband s) (r_nlist s) (r_nget s) (r_nwrite s) (r_gets s) (r_tr s) (r_abort s).
+  mkR (r_cl s) (r_tbl s) (r_cache s) (i :: r_aband s) (r_nlist s) (r_nget s) (r_nwrite s) (r_gets s) (r_tr s) (r_abort s) (r_known s).
 Definition emit (s : rst) (it : item) : rst :=
-  mkR (r_cl s) (r_tbl s) (r_cache s) (r_aband s) (r_nlist s) (r_nget s) (r_nwrite s) (r_gets s) (it :: r_tr s) (r_abort s).
+  mkR (r_cl s) (r_tbl s) (r_cache s) (r_aband s) (r_nlist s) (r_nget s) (r_nwrite s) (r_gets s) (it :: r_tr s) (r_abort s) (r_known s).
 Definition ev (s : rst) (e : evt) : rst := emit s (IEv e).
 Definition set_abort (s : rst) : rst :=
-  mkR (r_cl s) (r_tbl s) (r_cache s) (r_aband s) (r_nlist s) (r_nget s) (r_nwrite s) (r_gets s) (r_tr s) true.
+  mkR (r_cl s) (r_tbl s) (r_cache s) (r_aband s) (r_nlist s) (r_nget s) (r_nwrite s) (r_gets s) (r_tr s) true (r_known s).
+
+Definition set_known (s : rst) (k : list id) : rst :=
+  mkR (r_cl s) (r_tbl s) (r_cache s) (r_aband s) (r_nlist s) (r_nget s) (r_nwrite s) (r_gets s) (r_tr s) (r_abort s) k.
 
 Definition rec_add (s : rst) (i : id) (st : strategy) (a : actuation) (u : N) (g : Z) : rst :=
   set_tbl s (set_status Nat.eqb (r_tbl s) (mkRec i st a RPending u g)).
@@ -109,6 +113,16 @@ Section Run.
 
   Definition faulted (a : faddr) : bool := existsb (faddr_eqb a) (e_faults (sc_env sc)).
 
+  (* ---- what the RESTMapper knows -------------------------------------------
+     A custom kind is known iff its CRD object was in the cluster at the mapper's last reset
+     (discovery): at the start of the run, and at the end of every wait task whose ids contain
+     a CRD that is not skipped (WaitTask.updateRESTMapper). *)
+  Definition is_crd_id (i : id) : bool :=
+    match u_kind (uinfo_of sc i) with KCrd => true | _ => false end.
+  Definition live_crds (cl : cluster) : list id := filter is_crd_id (map c_id (objs cl)).
+  Definition kind_known (known : list id) (i : id) : bool :=
+    match u_crd (uinfo_of sc i) with Some c => memn c known | None => true end.
+
   (* a mutating request reached the server: log it with the snapshot after it *)
   Definition log_req (s : rst) (r : req) (ok : bool) : rst :=
     emit s (IReq r ok (managed (r_cl s)) (stored (r_cl s))).
@@ -124,13 +138,13 @@ Section Run.
   (* LIST of the inventory by label: None = rejected *)
   Definition inv_list (s : rst) : rst * option (option (list id)) :=
     let n := r_nlist s in
-    let s' := mkR (r_cl s) (r_tbl s) (r_cache s) (r_aband s) (S n) (r_nget s) (r_nwrite s) (r_gets s) (r_tr s) (r_abort s) in
+    let s' := mkR (r_cl s) (r_tbl s) (r_cache s) (r_aband s) (S n) (r_nget s) (r_nwrite s) (r_gets s) (r_tr s) (r_abort s) (r_known s) in
     if faulted (FInvList n) then (s', None) else (s', Some (inv (r_cl s))).
 
   Inductive getres := GFault | GNotFound | GFound (c : cobj).
   Definition get_obj (s : rst) (i : id) : rst * getres :=
     let n := count_n i (r_gets s) in
-    let s' := mkR (r_cl s) (r_tbl s) (r_cache s) (r_aband s) (r_nlist s) (r_nget s) (r_nwrite s) (i :: r_gets s) (r_tr s) (r_abort s) in
+    let s' := mkR (r_cl s) (r_tbl s) (r_cache s) (r_aband s) (r_nlist s) (r_nget s) (r_nwrite s) (i :: r_gets s) (r_tr s) (r_abort s) (r_known s) in
     if faulted (FGet i n) then (s', GFault)
     else match find_obj (objs (r_cl s)) i with
          | Some c => (s', GFound c)
@@ -141,10 +155,10 @@ Section Run.
   (* ConfigMap.Apply: GET by name, then Create or Update.  Returns ok. *)
   Definition inv_apply (s : rst) (ids : list id) : rst * bool :=
     let g := r_nget s in
-    let s1 := mkR (r_cl s) (r_tbl s) (r_cache s) (r_aband s) (r_nlist s) (S g) (r_nwrite s) (r_gets s) (r_tr s) (r_abort s) in
+    let s1 := mkR (r_cl s) (r_tbl s) (r_cache s) (r_aband s) (r_nlist s) (S g) (r_nwrite s) (r_gets s) (r_tr s) (r_abort s) (r_known s) in
     if faulted (FInvGet g) then (s1, false) else
     let w := r_nwrite s1 in
-    let s2 := mkR (r_cl s1) (r_tbl s1) (r_cache s1) (r_aband s1) (r_nlist s1) (r_nget s1) (S w) (r_gets s1) (r_tr s1) (r_abort s1) in
+    let s2 := mkR (r_cl s1) (r_tbl s1) (r_cache s1) (r_aband s1) (r_nlist s1) (r_nget s1) (S w) (r_gets s1) (r_tr s1) (r_abort s1) (r_known s1) in
     let rq := match inv (r_cl s) with None => RInvCreate (sortn ids) | Some _ => RInvUpdate (sortn ids) end in
     if faulted (FInvWrite w) then (log_req s2 rq false, false)
     else
@@ -155,7 +169,7 @@ Section Run.
   (* ConfigMap.ApplyWithPrune: Update directly *)
   Definition inv_update (s : rst) (ids : list id) : rst * bool :=
     let w := r_nwrite s in
-    let s2 := mkR (r_cl s) (r_tbl s) (r_cache s) (r_aband s) (r_nlist s) (r_nget s) (S w) (r_gets s) (r_tr s) (r_abort s) in
+    let s2 := mkR (r_cl s) (r_tbl s) (r_cache s) (r_aband s) (r_nlist s) (r_nget s) (S w) (r_gets s) (r_tr s) (r_abort s) (r_known s) in
     if faulted (FInvWrite w) then (log_req s2 (RInvUpdate (sortn ids)) false, false)
     else
       let cl := r_cl s2 in
@@ -285,8 +299,16 @@ Section Run.
   Definition hydrate (layers : list (list id)) (objs : list pobj) : list (list pobj) :=
     filter (fun l => match l with [] => false | _ => true end) (map (pick objs) layers).
 
-  Definition build_plan (locals : list lobj) (prune_objs : list cobj) : plan :=
-    let finv := map l_id (filter l_finv locals) in
+  (* validation: the type of a manifest is unknown when its CRD is neither known to the mapper
+     nor part of the manifests (LookupResourceScope falls back to the CRDs of the set) *)
+  Definition unknown_type (known : list id) (locals : list lobj) (l : lobj) : bool :=
+    match u_crd (uinfo_of sc (l_id l)) with
+    | Some c => negb (memn c known) && negb (memn c (map l_id locals))
+    | None => false
+    end.
+
+  Definition build_plan (known : list id) (locals : list lobj) (prune_objs : list cobj) : plan :=
+    let finv := map l_id (filter (fun l => l_finv l || unknown_type known locals l) locals) in
     let errs1 := map (fun i => [i]) finv in
     let applyA := map pobj_of_local (filter (fun l => negb (memn (l_id l) finv)) locals) in
     let pruneA := map pobj_of_live prune_objs in
@@ -468,6 +490,8 @@ Section Run.
     | None => s
     | Some l =>
         let i := p_id p in
+        (* InfoHelper.BuildInfo runs before the filters: no REST mapping => ApplyFailed, nothing sent *)
+        if negb (kind_known (r_known s) i) then rec_add (ev s (EApply g i AFail)) i SApply AFailed 0%N 0%Z else
         let '(s1, f1) := policy_apply_filter s i in
         let f := match f1 with
                  | FPass => dep_filter pl (r_tbl s1) SApply (g_deps (pl_graph pl) i)
@@ -675,22 +699,27 @@ Section Run.
         end
     end.
 
+  (* WaitTask.updateRESTMapper, at the end of the task *)
+  Definition wait_reset (c : wcond) (ids : list id) (s : rst) : rst :=
+    if existsb (fun i => is_crd_id i && negb (w_skipped c s i)) ids
+    then set_known s (live_crds (r_cl s)) else s.
+
   Definition wait_task (c : wcond) (g : gname) (ids : list id) (s : rst) : rst :=
     let k := snd g in
     let '(s1, w1) := wait_start c g ids s in
     match w_pending w1 with
-    | [] => s1
+    | [] => wait_reset c ids s1
     | _ =>
         let watch_err := match e_watch_err_at (sc_env sc) with Some n => Nat.eqb n k | None => false end in
         if watch_err then set_abort s1 else
         let ws := nth k (e_waits (sc_env sc)) (mkW [] WTimeout) in
         let '(s2, w2) := deliver c g ids (w_deliv ws) s1 w1 in
         match w_pending w2 with
-        | [] => s2
+        | [] => wait_reset c ids s2
         | _ =>
             let has_timeout := match c with AllCurrent => o_rec_timeout o | AllNotFound => o_prune_timeout o end in
             match w_end ws with
-            | WTimeout => if has_timeout then wait_timeout g s2 w2 else set_abort s2
+            | WTimeout => if has_timeout then wait_reset c ids (wait_timeout g s2 w2) else set_abort s2
             | WCancel => set_abort s2
             end
         end
@@ -857,6 +886,7 @@ Section Run.
     match ids with
     | [] => (s, Some [])
     | i :: t =>
+        if negb (kind_known (r_known s) i) then fetch_all s t else   (* no REST mapping: skipped, no GET *)
         let '(s1, g) := get_obj s i in
         match g with
         | GFault => (s1, None)
@@ -867,7 +897,7 @@ Section Run.
         end
     end.
 
-  Definition init_state (c : cluster) : rst := mkR c [] [] [] 0 0 0 [] [] false.
+  Definition init_state (c : cluster) : rst := mkR c [] [] [] 0 0 0 [] [] false (live_crds c).
 
   Definition register (pl : plan) (s : rst) : rst :=
     let s1 := fold_left (fun s p => rec_add s (p_id p) SApply APending 0%N 0%Z) (pl_apply pl) s in
@@ -896,7 +926,7 @@ Section Run.
         match r2 with
         | None => finish (ev s2 EError)
         | Some pobjs =>
-            let pl := build_plan locals pobjs in
+            let pl := build_plan (r_known s2) locals pobjs in
             let s3 := register pl s2 in
             (* solver: second read of the inventory *)
             let '(s4, r4) := inv_list s3 in
